@@ -94,6 +94,11 @@ var backtickRe = regexp.MustCompile("`[^`]*`")
 
 func reasonClass(s string) string {
 	s = backtickRe.ReplaceAllString(s, "`_`")
+	// pint words the same claim in two ways ("`a > b` always evaluates to ..." when it has the source fragments,
+	// "this query always evaluates to ..." otherwise): one class
+	if i := strings.Index(s, " always evaluates to"); i >= 0 {
+		s = "this query" + s[i:]
+	}
 	if len(s) > 110 {
 		s = s[:110]
 	}
